@@ -86,6 +86,35 @@ CLAIMS = {
              "that the automatic decimal output parses back to the same bits (in the specification and through the real FromStr), and "
              "that every flagged output is pad(sign ++ prefix ++ body) for the logged flags.",
         technique="TLA+ trace validation with TLC (impl->spec)", design_ref="6/C09"),
+    "C12": dict(
+        text="sqrt, log2, ln, exp, pow, powi, sin, cos, tan recorded under both build profiles on 14 layouts and 6 widening pairs with "
+             "operands at the extremes (min, max, +-1 ulp, reciprocal-overflow edge, exponents up to i32::MIN/MAX); TLC requires outcome "
+             "kind Ok/Err (no panic, no exhausted iteration budget), Err for undefined requests, and a normal return of sin/cos/tan inside "
+             "the stated angle domain (the tan domain is decided with the specification's own sin/cos reference).",
+        technique="TLA+ trace validation with TLC (impl->spec), both build profiles, loop-budget hook", design_ref="6/C12"),
+    "C13": dict(
+        text="sqrt results validated by TLC through an integer certificate (no square root needed): max(r-4,0)^2 <= x*2^(2fD-fS) <= (r+4)^2, "
+             "exact at 0 and 1, Err only where the operand is negative or its reciprocal does not fit the destination.",
+        technique="TLA+ trace validation with TLC (impl->spec), exact integer certificate", design_ref="6/C13"),
+    "C14": dict(
+        text="log2 / ln results validated by TLC against reference values computed inside the specification with 200 fractional bits "
+             "(atanh series; ln 2 = 2 atanh(1/3); error < 2^-160): |r - log2 x| <= 8 ulp, exactness on powers of two, sign conditions, "
+             "|r - ln x| <= 2^-23 |ln x| + 8 ulp, Err only for x <= 0 or a non-representable reciprocal.",
+        technique="TLA+ trace validation with TLC (impl->spec), high-precision reference arithmetic written in TLA+", design_ref="6/C14"),
+    "C15": dict(
+        text="exp / pow / powi results validated by TLC: e^t by Taylor series and ten squarings at 200 bits, x^y = exp(y ln x), exact integer "
+             "x^n; the property's relative+absolute bounds, the conventions 0^y, x^0, x^1 and the truncated-reciprocal clause of powi.",
+        technique="TLA+ trace validation with TLC (impl->spec), high-precision reference arithmetic written in TLA+", design_ref="6/C15"),
+    "C16": dict(
+        text="sin / cos / tan results validated by TLC against Taylor-series references at 200 bits after reduction modulo 2 pi (pi from "
+             "Machin's formula, computed in the specification): |r - sin x| <= 2^-16, |r| <= 1 + 2^-16 for |x| <= 200; "
+             "|r c^2 - s c| <= 2^-14 for tan where |x| <= 100 and |tan x| <= 64.",
+        technique="TLA+ trace validation with TLC (impl->spec), high-precision reference arithmetic written in TLA+", design_ref="6/C16"),
+    "C17": dict(
+        text="every call of sqrt, log2, ln, exp, pow, sin, cos, tan in the C12 corpus (largest/smallest magnitudes, angles 2^k up to the "
+             "maximum, both profiles) carries the loop-iteration count read from the guarded hook; TLC checks it <= 4*max(wS,wD)+64 and "
+             "that the budget sentinel never fired.",
+        technique="TLA+ trace validation with TLC (impl->spec) of hook-recorded iteration counts", design_ref="6/C17"),
 }
 
 REASON_TODO = "check not built yet in this round; the specification does not cover it so far"
